@@ -460,7 +460,10 @@ class WSGITask(Task):
                 # a 1xx, 204 or 304 response has no body: the file must not be
                 # handed to the channel (which would send its bytes after the
                 # header block), the loop below consumes and drops it instead
-                if size and self.has_body:
+                # likewise, once the application has used write() the header
+                # block (and with it the framing) is out: the file's bytes
+                # have to go through write() as well
+                if size and self.has_body and not self.wrote_header:
                     if cl != size:
                         if cl is not None:
                             self.remove_content_length_header()
